@@ -284,7 +284,27 @@ func init() {
 						ambiguous = ambiguous || m.amb
 					}
 					if ambiguous || strings.HasSuffix(path, ":") {
-						continue // an empty segment under a wildcard, or an empty verb: the grammar does not say
+						// an empty segment under a wildcard, or an empty verb: the grammar does not say
+						// whether that matches. But IF the transcoder dispatches to a binding that
+						// matches under the lenient reading, what it captures must be the text the
+						// wildcards matched - not something shorter.
+						if got.method != "" {
+							for _, m := range matches {
+								id := fmt.Sprintf("M%d", m.bi)
+								if tab.addl && m.bi == 1 {
+									id = "M0"
+								}
+								if id != got.method || m.b.method != hm && m.b.method != "*" {
+									continue
+								}
+								want := c06Outcome{method: id, name: m.caps["name"], extra: m.caps["extra_text"], child: m.caps["child.name"]}
+								if got != want && len(matches) == 1 {
+									c.Attr("class", "capture-differs-from-matched-text")
+									c.Fail("C06.wrong-capture", "%s %s on table %v (a path with an empty segment): dispatched to %s with %s, but the text matched by its wildcards is %s", hm, path, tab.bindings, got.method, got, want)
+								}
+							}
+						}
+						continue
 					}
 					if len(matches) == 0 {
 						if got.method != "" || got.status != 404 {
